@@ -36,7 +36,7 @@ var keyBytes = map[string]string{
 	"del": "\x1b[3~", "pgup": "\x1b[5~", "pgdn": "\x1b[6~", "insert": "\x1b[2~",
 	"f1": "\x1bOP", "f2": "\x1bOQ", "f3": "\x1bOR", "f4": "\x1bOS", "f5": "\x1b[15~", "f6": "\x1b[17~",
 	"f7": "\x1b[18~", "f8": "\x1b[19~", "f9": "\x1b[20~", "f10": "\x1b[21~", "f11": "\x1b[23~", "f12": "\x1b[24~",
-	"alt-bspace": "\x1b\x7f", "shift-left": "\x1b[1;2D", "shift-right": "\x1b[1;2C",
+	"alt-bspace": "\x1b\x7f", "shift-left": "\x1b[1;2D", "shift-right": "\x1b[1;2C", "ctrl-]": "\x1d",
 }
 
 func init() {
